@@ -4,6 +4,7 @@ import (
 	"fmt"
 	"go/constant"
 	"go/token"
+	"go/types"
 	"sort"
 
 	"golang.org/x/tools/go/ssa"
@@ -364,7 +365,111 @@ func (w *World) checkRootHandling(P string, f *Facts, r *Roles, ef *ExecFacts) {
 		}
 		w.check(P, "R01.11", "axis following: attribute and namespace context nodes", p, kinds["Attribute"] && kinds["Namespace"], fmt.Sprintf("node kinds tested by the following collector: %v (both node.Attribute and node.Namespace are required)", keys(kinds)))
 	}
-	w.floor(P, "R01.11", 1)
+	// ... and the preceding axis of such a node contains none of them: in the preceding collector no keep is enabled
+	// by a node-kind test of the context node (a helper shared with the following axis must make that test only when
+	// it collects forward; blocks that the constants passed down from the preceding selector make unreachable are
+	// left out)
+	if arm := at.Arms["preceding"]; arm != nil && arm.Callee != nil {
+		reach := staticReach(arm.Callee, func(fn *ssa.Function) bool { return fnPkgKey(fn) == "exec" })
+		// boolean parameters bound to one constant by every call inside the preceding collector
+		bound := map[ssa.Value]bool{}
+		for fn := range reach {
+			for i, prm := range fn.Params {
+				if b, ok := prm.Type().Underlying().(*types.Basic); !ok || b.Kind() != types.Bool {
+					continue
+				}
+				val, n, okAll := false, 0, true
+				for caller := range reach {
+					allInstrs(caller, func(in ssa.Instruction) {
+						c, ok := in.(*ssa.Call)
+						if !ok || staticCallee(c) != fn || i >= len(c.Call.Args) {
+							return
+						}
+						a := c.Call.Args[i]
+						if a == ssa.Value(prm) {
+							return // handed on unchanged by the recursion
+						}
+						k, isK := a.(*ssa.Const)
+						if !isK || k.Value == nil {
+							okAll = false
+							return
+						}
+						v := k.Value.String() == "true"
+						if n > 0 && v != val {
+							okAll = false
+						}
+						val = v
+						n++
+					})
+				}
+				if okAll && n > 0 {
+					bound[prm] = val
+				}
+			}
+		}
+		feasible := func(b *ssa.BasicBlock) bool {
+			for _, a := range guardAtoms(b) {
+				if v, ok := bound[a.V]; ok && v != a.Pol {
+					return false
+				}
+			}
+			return true
+		}
+		bad := ""
+		for fn := range reach {
+			fn := fn
+			allInstrs(fn, func(in ssa.Instruction) {
+				c, ok := in.(*ssa.Call)
+				if !ok || bad != "" {
+					return
+				}
+				bi, ok := c.Call.Value.(*ssa.Builtin)
+				if !ok || bi.Name() != "append" || !feasible(c.Block()) {
+					return
+				}
+				for _, a := range guardAtoms(c.Block()) {
+					if !a.Pol {
+						continue
+					}
+					if _, isPhi := a.V.(*ssa.Phi); !isPhi {
+						continue
+					}
+					// what the flag is computed from, leaving out phi edges that come from unreachable blocks
+					seen := map[ssa.Value]bool{}
+					var fromKind func(v ssa.Value, d int) bool
+					fromKind = func(v ssa.Value, d int) bool {
+						if d > 10 || seen[v] {
+							return false
+						}
+						seen[v] = true
+						switch x := v.(type) {
+						case *ssa.Phi:
+							for i, e := range x.Edges {
+								if feasible(x.Block().Preds[i]) && fromKind(e, d+1) {
+									return true
+								}
+							}
+						case *ssa.BinOp:
+							return fromKind(x.X, d+1) || fromKind(x.Y, d+1)
+						case *ssa.UnOp:
+							return fromKind(x.X, d+1)
+						case *ssa.Extract:
+							if ta, ok := x.Tuple.(*ssa.TypeAssert); ok && x.Index == 1 && feasible(ta.Block()) {
+								n, _ := nodeIface(ta.AssertedType)
+								return n != nil && (n.Obj().Name() == "Attribute" || n.Obj().Name() == "Namespace")
+							}
+						}
+						return false
+					}
+					if fromKind(a.V, 0) {
+						bad = w.pos(c.Pos())
+					}
+				}
+			})
+		}
+		w.check(P, "R01.11", "axis preceding: attribute and namespace context nodes", arm.Callee.Pos(), bad == "", "a keep of the preceding collector is enabled by a test for an attribute or namespace context node (the children of its parent element follow such a node, they do not precede it): "+orNone(bad))
+	}
+	w.floor(P, "R01.11", 2)
 	// R01.12 selectors are per-context-node functions
 	docRule(P, "R01.12", "F", "every axis selector computes its result from each context node independently: the incoming node-set is only ranged over and no branch inside that loop depends on state carried over from earlier context nodes (node-sets arrive in descending order after a reverse axis, so order-dependent shortcuts drop nodes).")
 	for _, axis := range axes {
